@@ -83,22 +83,28 @@ def find_memo_sites(fi: FuncInfo):
             if "cache" in cache.lower() or "rules" in cache.lower() or "memo" in cache.lower():
                 sites.append((cache, n.args[0], n.args[1], n))
     # (a)/(c): C[K] = v stores, with a lookup of C under the same key text in the function
+    def cachey(cache):
+        return "cache" in cache.lower() or "rules" in cache.lower() or "memo" in cache.lower() or cache in ("c",)
+
     stores = []
     for n in ast.walk(fn):
-        if isinstance(n, ast.Assign) and len(n.targets) == 1 and isinstance(n.targets[0], ast.Subscript):
-            t = n.targets[0]
-            cache = norm(t.value)
-            if not ("cache" in cache.lower() or "rules" in cache.lower() or "memo" in cache.lower() or cache in ("c",)):
-                continue
-            stores.append((cache, t.slice, n.value, n))
-    lookups = set()
+        if isinstance(n, ast.Assign):
+            for t in n.targets:  # chained `r = C[K] = E` has two targets
+                if isinstance(t, ast.Subscript):
+                    stores.append((norm(t.value), t.slice, n.value, n))
+    lookups = set()  # any read of C under the key
+    guarded = set()  # reads that *test* for presence: `K in C`, `C.get(K)` - the memo idiom whatever C is called
     for n in ast.walk(fn):
         if isinstance(n, ast.Call) and isinstance(n.func, ast.Attribute) and n.func.attr == "get" and n.args:
             lookups.add((norm(n.func.value), norm(n.args[0])))
+            guarded.add((norm(n.func.value), norm(n.args[0])))
         if isinstance(n, ast.Subscript) and isinstance(n.ctx, ast.Load):
             lookups.add((norm(n.value), norm(n.slice)))
+        if isinstance(n, ast.Compare) and len(n.ops) == 1 and isinstance(n.ops[0], (ast.In, ast.NotIn)):
+            lookups.add((norm(n.comparators[0]), norm(n.left)))
+            guarded.add((norm(n.comparators[0]), norm(n.left)))
     for cache, key, val, n in stores:
-        if (cache, norm(key)) in lookups:
+        if (cachey(cache) and (cache, norm(key)) in lookups) or ((cache, norm(key)) in guarded and cache.startswith("self.")):
             sites.append((cache, key, val, n))
     out = []
     for cache, key, val, n in sites:
